@@ -57,7 +57,7 @@ def gen_case(ctx, dspecs):
                                 max_units=MAX_UNITS[n] if rng.random() < 0.6 else rng.randint(1, MAX_UNITS[n]),
                                 labels=labels or cases.LABELS_SMALL, p_none=p_none, min_total=1,
                                 names=cases.pick_names(rng, n))
-    backend = rng.choice(["cbc", "glpk"])
+    backend = rng.choice(["cbc", "glpk"]) if rng.random() > 0.04 else "allfail"
     return {"continuum": cspec, "dissim": dspec, "backend": backend}
 
 
@@ -108,6 +108,17 @@ def check_case(ctx, case):
         if case["backend"] == "glpk":
             with monitors.cylp_masked():
                 alignment = continuum.get_best_alignment(dissim)
+        elif case["backend"] == "allfail":
+            # every solver call raises SolverError: "always returns" presupposes a usable solver - a refusal is accepted here,
+            # an alignment that is returned nevertheless is judged like any other
+            spy.fail_all = True
+            try:
+                alignment = continuum.get_best_alignment(dissim)
+            except Exception as e0:
+                ctx.observe("no_solver_usable", "refused:" + type(e0).__name__)
+                return
+            finally:
+                spy.fail_all = False
         else:
             alignment = continuum.get_best_alignment(dissim)
     except BaseException as e:
